@@ -1107,6 +1107,25 @@ fn run_template(c: &mut Ctx, cfg: &RunCfg, seq: u64, rep: &mut Report, lean: &mu
             }
             c.lines.push(format!("# epoch {}: invalid window post submitted for deadline {}", c.w.vm.epoch(), c.d_idx));
             next_deadline(c, cfg, seq, rep, lean, agree)?;
+            // the deadline has closed and is mutable again: in half of the runs the miner declares (some of)
+            // the sectors it has just "proven" faulty before anybody disputes — the dispute must still charge
+            // for the power the proof claimed (the snapshot), not for what the dispute itself removes
+            if r.chance(1, 2) {
+                let live = live_sectors(c);
+                if !live.is_empty() {
+                    let some: Vec<u64> = if r.chance(1, 2) { live.clone() } else { live.iter().cloned().take(1).collect() };
+                    let df = fil_actor_miner::DeclareFaultsParams {
+                        faults: vec![fil_actor_miner::FaultDeclaration {
+                            deadline: c.d_idx,
+                            partition: c.p_idx,
+                            sectors: fvm_ipld_bitfield::BitField::try_from_bits(some.iter().cloned()).unwrap(),
+                        }],
+                    };
+                    rep.branch("dispute:faults-declared-before-dispute");
+                    exec_checked(c, cfg, seq, rep, lean, agree, Kind::Other, c.owner, c.miner, TokenAmount::zero(),
+                        MinerMethod::DeclareFaults as u64, IpldBlock::serialize_cbor(&df).unwrap(), format!("declare faults {:?} after the disputed deadline closed", some))?;
+                }
+            }
             next_deadline(c, cfg, seq, rep, lean, agree)?;
             if t == Template::DisputeFail {
                 c.w.vm.fault_plan.borrow_mut().rules.push(FaultRule { from: Some(c.miner_id), to: c.reporter.id().ok(), method: Some(METHOD_SEND), ordinal: None, exit: 7, ..Default::default() });
